@@ -3,6 +3,7 @@
 from __future__ import annotations
 
 import itertools
+import re
 
 PROP = "C01"
 PROP_FILE = "PwVerif/Props/C01.lean"
@@ -28,6 +29,9 @@ THEOREMS = [
     "C01_fine_atomic",
     "C01_fine_pinned_witness",
     "C01_fine_pinned_not_once",
+    "C01_rerun_is_fresh",
+    "C01_rerun",
+    "C01_rerun_pinned_witness",
 ]
 RULE = (
     "random acyclic data graphs over 2..N term nodes inserted in random (non-topological) order, 3 input slots "
@@ -70,16 +74,17 @@ def build(case):
     return wf, ns
 
 
-def reference(case):
+def reference(case, epoch=0):
     """plain python composition: most recently connected upstream per slot, default 'd'"""
     memo = {}
+    tag = f"@{epoch}" if epoch else ""
 
     def val(i):
         if i not in memo:
             args = []
             for ups in case["slots"][str(i)]:
                 args.append(val(ups[-1]) if ups else "d")
-            memo[i] = f"f{i}(" + ",".join(args) + ")"
+            memo[i] = f"f{i}{tag}(" + ",".join(args) + ")"
         return memo[i]
 
     return {i: val(i) for i in case["order"]}
@@ -115,6 +120,15 @@ def gen_cases(rng, tier):
         yield {"n": n, "order": order, "slots": slots, "exec": ex, "fails": [],
                "mode": rng.choice(["ctl", "ctl", "ctl-cloudpickle"]),
                "choices": [rng.randint(0, 4) for _ in range(4 * n)]}
+    # re-runs: run one with an injected fault, failure cleared and cause removed, run two under another schedule
+    for _ in range(80 if tier == "quick" else 800):
+        n = rng.randint(3, 6 if tier == "quick" else 10)
+        order, slots = gen_dag(rng, n, 0.6)
+        ex = [i for i in range(n) if rng.random() < 0.5]
+        yield {"n": n, "order": order, "slots": slots, "exec": ex, "fails": [rng.randrange(n)],
+               "mode": "ctl", "choices": [rng.randint(0, 4) for _ in range(4 * n)],
+               "rerun": {"exec2": [i for i in range(n) if rng.random() < 0.5],
+                         "choices2": [rng.randint(0, 4) for _ in range(4 * n)]}}
     # fine interleaving: callbacks on their own thread, stepped in two halves
     for _ in range(60 if tier == "quick" else 600):
         n = rng.randint(2, 5 if tier == "quick" else 8)
@@ -137,6 +151,10 @@ def gen_cases(rng, tier):
 
 
 def corpus():
+    # stale received set: 0 -> 2 <- 1, run one: 0 raises, 1 completes; run two: 1 on an executor, completed last
+    yield {"n": 3, "order": [0, 1, 2], "slots": {"0": [[], [], []], "1": [[], [], []], "2": [[0], [1], []]},
+           "exec": [], "fails": [0], "mode": "ctl", "choices": [],
+           "rerun": {"exec2": [1], "choices2": []}}
     # the finish/emit gap: chain 0 -> 1, node 0 on an executor, the loop re-tests between the two calls
     yield {"n": 2, "order": [0, 1], "slots": {"0": [[], [], []], "1": [[0], [], []]}, "exec": [0], "fails": [],
            "mode": "ctl", "fine": True, "choices": [0, 0, 0, 0]}
@@ -151,8 +169,6 @@ def corpus():
 
 
 def _run_once(case, choices):
-    from pyiron_workflow.channels import NOT_DATA
-
     from . import nodes
     from .execsim import CtlExecutor, Instrument, Scheduler, Stuck, term_str
 
@@ -160,10 +176,34 @@ def _run_once(case, choices):
     for i in case["fails"]:
         nodes.FAIL[i] = {0}
     wf, ns = build(case)
+    rr = case.get("rerun")
+    if rr:
+        for n in ns.values():
+            n.use_cache = False  # every run re-executes every child (caching is C05's subject)
+    res, seen = _one_run(case, wf, ns, choices, case["exec"], case.get("mode", "ctl"))
+    if rr and not any(run for run, _f in res["flags"].values()) and not res["late_jobs"]:
+        # the documented way on: clear the failure, remove its cause, run again
+        nodes.FAIL.clear()
+        nodes.CALL_LOG.clear()
+        nodes.EPOCH[0] = 1
+        wf.failed = False
+        for n in ns.values():
+            n.failed = False
+        res2, seen2 = _one_run(case, wf, ns, list(rr["choices2"]), rr["exec2"], "ctl")
+        res2["epoch"] = 1
+        res["run2"] = res2
+        seen = seen + seen2
+    return res, seen
+
+
+def _one_run(case, wf, ns, choices, on_exec, mode):
+    from . import nodes
+    from .execsim import CtlExecutor, Instrument, Scheduler, Stuck, term_str
+
     sched = Scheduler(choices, ident=lambda owner: owner.label[1:])
-    exe = CtlExecutor(sched, case.get("mode", "ctl"))
-    for i in case["exec"]:
-        ns[i].executor = exe
+    exe = CtlExecutor(sched, mode)
+    for i in ns:
+        ns[i].executor = exe if i in on_exec else None
     wiring = {}
 
     import pyiron_workflow.nodes.composite as comp
@@ -408,6 +448,12 @@ def _model_input_one(case, r):
         return lines
     lines.append("sched " + " ".join(r["trace"]))
     lines.append("run")
+    if r.get("run2"):
+        r2 = r["run2"]
+        lines.append("fails")
+        lines.append("exec " + " ".join(map(str, case["rerun"]["exec2"])))
+        lines.append("sched " + " ".join(r2["trace"]))
+        lines.append("rerun")
     return lines
 
 
@@ -425,6 +471,13 @@ def diff(case, impl, model):
         if d is not None:
             d["trace"] = r["trace"]
             return d
+        if r.get("run2"):
+            mine2 = ["RERUN"] + [re.sub(r"@\d+", "", l) for l in obs_lines(case, r["run2"])]
+            d = _diff_one(case, mine2, ch)
+            if d is not None:
+                d["trace"] = r["run2"]["trace"]
+                d["run"] = 2
+                return d
     return None
 
 
@@ -433,8 +486,16 @@ def _diff_one(case, mine, model):
     if not model or model[0] != "wf true":
         return {"index": 0, "impl": "wiring observed on the implementation", "model": model[:1],
                 "why": "the wiring does not satisfy the hypothesis WF of the theorems"}
+    if mine and mine[0] == "RERUN":
+        # second run of a re-run case: must agree with a variant that keeps (k) or resets (z) the received sets
+        mine = mine[1:]
+        tags = [t + x for t in ("P", "R", "X", "Y") for x in ("k", "z")]
+    elif any(l.startswith("Fp ") for l in model):
+        tags = ["Fp", "Fr"]
+    else:
+        tags = ["P", "R", "X", "Y"]
     best = None
-    for tag in (("Fp", "Fr") if any(l.startswith("Fp ") for l in model) else ("P", "R", "X", "Y")):
+    for tag in tags:
         theirs = [l[len(tag) + 1:] for l in model if l.startswith(tag + " ")][: len(mine)]
         if theirs == mine:
             STATS_VARIANT[tag] = STATS_VARIANT.get(tag, 0) + 1
@@ -451,10 +512,11 @@ def check_run(case, r):
     """the property, evaluated on one run of the implementation"""
     fails = []
     n = case["n"]
-    ref = reference(case)
+    ref = reference(case, r.get("epoch", 0))
     fine = bool(r.get("fine"))
     sig = lambda clause: {"clause": clause, "exec": bool(case["exec"]), "faults": bool(case["fails"]),  # noqa: E731
-                          **({"fine": True, "gap": bool(r.get("late"))} if fine else {})}
+                          **({"fine": True, "gap": bool(r.get("late"))} if fine else {}),
+                          **({"rerun": True} if r.get("epoch") else {})}
     fin_ev = "land" if fine else "finish"  # fine mode: the upstream's result is in place (before its bookkeeping)
     if r["outcome"] != "ok":
         fails.append({"clause": "run-did-not-return-normally", "detail": r["outcome"], "signature": sig("outcome")})
@@ -491,7 +553,14 @@ def check_run(case, r):
 
 def oracle(case, impl):
     for r in impl["runs"]:
-        f = check_run(case, r)
+        if case.get("rerun"):
+            # run one has an injected fault (C06's subject); C01 is demanded of the re-run
+            if "run2" not in r:
+                return [{"clause": "rerun-not-possible", "detail": f"after run one: {r['flags']} late={r['late_jobs']}",
+                         "signature": {"clause": "rerun-not-possible"}}]
+            f = check_run(case, r["run2"])
+        else:
+            f = check_run(case, r)
         if f:
             return f
     return []
